@@ -661,7 +661,7 @@ static void reb_tree_check_for_overlapping_trajectories_in_cell(struct reb_simul
         double dy = gb.y - c->y;
         double dz = gb.z - c->z;
         double r2 = dx*dx + dy*dy + dz*dz;
-        double rp  = p1_r_plus_dtv + maxdrift + 0.86602540378443*c->w;
+        double rp  = p1_r_plus_dtv + r->max_radius1 + maxdrift + 0.86602540378443*c->w; // max_radius1: radius of the (other) particle in the cell, as in the TREE search
         // Check if we need to decent into daughter cells
         if (r2 < rp*rp ){
             for (int o=0;o<8;o++){
